@@ -165,7 +165,8 @@ package main
 //@ ensures[ok-only-if-validated] ret1 ==> called(Validate) && ret(Validate) && arg(Validate, 0) == ret0 && ret0 != ""
 
 //@ func (*OAuthProxy).SignInPage
-//@ prop C13 C11
+//@ prop C13 C11 C19
+//@ requires[a-three-digit-status-code] 100 <= code && code <= 999
 //@ at call WriteHeader assert[page-only-after-cookie-cleared] ret(ClearSessionCookie) == nil
 //@ ensures[clear-failure-is-error-page] ret(ClearSessionCookie) != nil ==> called(ErrorPage) && !called(WriteSignInPage)
 
